@@ -15,6 +15,7 @@
 #include "wire.h"
 #include "san.h"
 #include "tk_flight.h"
+#include "c08_vec.h"
 
 #define MAXCFG 96
 static wcfg_t cfgs[MAXCFG];
@@ -25,8 +26,10 @@ typedef struct { int ci, p; } grp_t;
 static grp_t groups[MAXCFG * 40];
 static long ngroups;
 
-enum { E_TRUNC = 0, E_BYTE, E_W2, E_W3, E_SPLIT, E_COALESCE, E_RAW, E_HDR, E_REFLIGHT, E_NK };
-static const char *ename[] = { "truncate", "byte", "window16", "window24", "split-record", "coalesce", "raw-string", "raw-header", "re-record-flight" };
+enum { E_TRUNC = 0, E_BYTE, E_W2, E_W3, E_SPLIT, E_COALESCE, E_RAW, E_HDR, E_REFLIGHT, E_VEC, E_OLD, E_NK };
+static const char *ename[] = { "truncate", "byte", "window16", "window24", "split-record", "coalesce", "raw-string", "raw-header", "re-record-flight", "vector-resize", "earlier-unit-again" };
+#define HIST_MAX 12
+#define HIST_LEN 4200
 typedef struct { unsigned char kind; int off, val; } edit_t;
 
 typedef struct {
@@ -34,6 +37,9 @@ typedef struct {
     int ci, p, victim;
     unsigned char seed[20000], next[20000];
     int seed_len, next_len;
+    /* plaintext handshake units already delivered to the victim on the way to this state (E_OLD) */
+    unsigned char hist[HIST_MAX][HIST_LEN];
+    int hist_len[HIST_MAX], nhist;
     edit_t e;
 } gctx_t;
 
@@ -65,13 +71,45 @@ static int reach_state(gctx_t *g)
     {
         return -2;
     }
-    if (g->p <= n)
     {
-        return world_run_steps(&g->w, g->p) == g->p ? 0 : -3;
-    }
-    if (world_run_steps(&g->w, 1000) != n)
-    {
-        return -4;
+        /* world_run_steps, with a copy of every plaintext handshake unit delivered to the victim */
+        int turn = 0, k = 0, want = g->p <= n ? g->p : 1000, d;
+        g->nhist = 0;
+        world_collect(&g->w, 0);
+        while (k < want)
+        {
+            for (d = 0; d < 2; d++)
+            {
+                wire_t *q = &g->w.wire[(turn + d) % 2];
+                if (q->n > 0)
+                {
+                    rec_t *x = &q->r[q->head];
+                    if ((turn + d) % 2 == 1 - g->victim && x->p[0] == SSL_RECORD_TYPE_HANDSHAKE && x->len <= HIST_LEN && g->nhist < HIST_MAX)
+                    {
+                        hmsg_t hm[12];
+                        if (hs_msgs(x->p, x->len, ver_is_dtls(c->ver), hm, 12) > 0)
+                        {
+                            memcpy(g->hist[g->nhist], x->p, (size_t) x->len);
+                            g->hist_len[g->nhist++] = x->len;
+                        }
+                    }
+                    break;
+                }
+            }
+            if (!world_step(&g->w, &turn))
+            {
+                break;
+            }
+            k++;
+        }
+        if (g->p <= n)
+        {
+            return k == g->p ? 0 : -3;
+        }
+        if (k != n)
+        {
+            return -4;
+        }
     }
     world_app_send(&g->w, 0, (const unsigned char *) "c-data-1", 8);
     world_app_send(&g->w, 1, (const unsigned char *) "s-data-1", 8);
@@ -200,6 +238,36 @@ static void run_case(void *ctx, mx_result_t *r)
         {
             rec_t x = world_wire_pop(&g->w, peer);
             free(x.p);
+        }
+        consumed_seed = 0;
+        break;
+    }
+    case E_VEC:
+        /* off = flat index of the vector in the record, val = resize variant */
+    {
+        int mis[96], ks[96], nvec = vec_count(buf, len, dtls, mis, ks, 96);
+        if (e->off >= nvec || !vec_resize(buf, &len, (int) sizeof(buf), dtls, mis[e->off], ks[e->off], e->val))
+        {
+            r->nontrivial = 0;
+        }
+        break;
+    }
+    case E_OLD:
+    {
+        /* off = index of an earlier unit, val = 0 as it was / 1 + flat vector index * VR_N + variant; DTLS: fresh record sequence number */
+        len = g->hist_len[e->off];
+        memcpy(buf, g->hist[e->off], (size_t) len);
+        if (dtls)
+        {
+            buf[9] = 0x7e; buf[10] = (unsigned char) (0x10 + e->off);
+        }
+        if (e->val > 0)
+        {
+            int mis[96], ks[96], nvec = vec_count(buf, len, dtls, mis, ks, 96), fi = (e->val - 1) / VR_N;
+            if (fi >= nvec || !vec_resize(buf, &len, (int) sizeof(buf), dtls, mis[fi], ks[fi], (e->val - 1) % VR_N))
+            {
+                r->nontrivial = 0;
+            }
         }
         consumed_seed = 0;
         break;
@@ -688,6 +756,24 @@ static void run_group(long gi, void *unused)
             return;
         }
         take_seed(&g);
+        /* earlier plaintext handshake units delivered once more in this later state (a retransmission, a replay): as they
+           were, and - DTLS, where a repeated unit is legitimate traffic - with every vector resized */
+        {
+            int j, dt = ver_is_dtls(cfgs[g.ci].ver);
+            for (j = 0; j < g.nhist && !mx_deadline_hit(); j++)
+            {
+                fork_edit(&g, E_OLD, j, 0);
+                if (dt)
+                {
+                    int mis[96], ks[96], nvec = vec_count(g.hist[j], g.hist_len[j], dt, mis, ks, 96), fi, var;
+                    static const int qv[3] = { VR_GROW16, VR_SHRINK1, VR_EMPTY };
+                    for (fi = 0; fi < nvec; fi++)
+                    {
+                        for (var = 0; var < (thorough ? VR_N : 3); var++) fork_edit(&g, E_OLD, j, 1 + fi * VR_N + (thorough ? var : qv[var]));
+                    }
+                }
+            }
+        }
         if (g.seed_len > 0)
         {
             int L = g.seed_len;
@@ -745,6 +831,14 @@ static void run_group(long gi, void *unused)
             {
                 fork_edit(&g, E_COALESCE, 0, 0);
                 fork_edit(&g, E_COALESCE, 0, 1);
+            }
+            /* structure-preserving resize of every length-prefixed vector of a plaintext handshake unit */
+            {
+                int mis[96], ks[96], nvec = vec_count(g.seed, g.seed_len, ver_is_dtls(cfgs[g.ci].ver), mis, ks, 96), fi, var;
+                for (fi = 0; fi < nvec && !mx_deadline_hit(); fi++)
+                {
+                    for (var = 0; var < VR_N; var++) fork_edit(&g, E_VEC, fi, var);
+                }
             }
             /* re-recording of a whole plaintext flight (TLS only): every pair of cut points out of {1, 4, 10 bytes into each
                handshake message, its middle, 1 byte before its end} over the concatenated record bodies */
